@@ -307,7 +307,19 @@ def contract_ob(oid, function, props, case_fn, clause, kind='post', deciding=Tru
                     if r.status != 'unsat':
                         wit = _witness(case, r)
                         rp = _replay(case, wit, expect='returns', spec_eval=spec_eval)
-                        return Verdict('refuted' if r.status == 'sat' else 'unknown', r.backend, time.time() - t0,
+                        how = r.backend
+                        if not (rp and rp.get('confirmed')):
+                            # the solver's model may be spurious (uninterpreted sums / special functions):
+                            # search a concrete instance on which code term and spec term differ
+                            w2 = random_refute(case, facts + list(hx), lhs, rhs)
+                            if w2 is None:
+                                return Verdict('unknown', r.backend, time.time() - t0,
+                                               'ensures `%s` not proved (%s) and no concrete counterexample found: code %s vs spec %s' % (label, r.status, tm.show(lhs)[:300], tm.show(rhs)[:300]),
+                                               sample=sample)
+                            wit = w2
+                            rp = _replay(case, wit, expect='returns', spec_eval=spec_eval)
+                            how = 'concrete search (mpmath) after ' + r.backend
+                        return Verdict('refuted', how, time.time() - t0,
                                        'ensures `%s` fails: code %s vs spec %s' % (label, tm.show(lhs)[:300], tm.show(rhs)[:300]),
                                        witness=wit, sample=sample, replay=rp)
             # frame: no write to a non-fresh storage
@@ -328,18 +340,90 @@ def contract_ob(oid, function, props, case_fn, clause, kind='post', deciding=Tru
     return Obligation(oid, kind, function, check, props, deciding=deciding, clause=clause)
 
 
+def random_refute(case, facts, lhs, rhs, tries=300, seed=0, maxdim=3):
+    """Concrete search for an instance on which the code term and the spec term differ while all
+    facts hold.  Returns a witness dict (dims, arrays, scalars) or None."""
+    import random
+    from fractions import Fraction as Fr
+    rnd = random.Random(seed)
+    terms = list(facts) + [lhs, rhs]
+    fvs = set()
+    arrays = {}
+    for t_ in terms:
+        fvs |= tm.free_vars(t_)
+        for u in tm.subterms(t_):
+            if u.op == 'sel':
+                arrays[u.args[0]] = (len(u.args) - 1, u.sort)
+    vals_r = [Fr(0), Fr(1), Fr(-1), Fr(1, 2), Fr(-3, 2), Fr(2), Fr(3), Fr(-2), Fr(5, 4), Fr(7, 10)]
+    for _ in range(tries):
+        env = {}
+        for v_ in fvs:
+            name = v_.args[0]
+            if v_.sort == 'I':
+                env[name] = rnd.randint(0, maxdim)
+            elif v_.sort == 'R':
+                env[name] = rnd.choice(vals_r)
+            else:
+                env[name] = rnd.random() < 0.5
+        store = {}
+        for an, (ar, so) in arrays.items():
+            def getter(*idx, an=an, so=so):
+                key = (an,) + tuple(int(i) for i in idx)
+                if key not in store:
+                    store[key] = rnd.choice(vals_r) if so == 'R' else (rnd.randint(-2, 3) if so == 'I' else rnd.random() < 0.5)
+                return store[key]
+            env['@' + an] = getter
+        try:
+            if not all(evalc.evaluate(f_, env) for f_ in facts):
+                continue
+            a, b = evalc.evaluate(lhs, env), evalc.evaluate(rhs, env)
+        except (evalc.Undefined, KeyError, ZeroDivisionError, IndexError, ValueError):
+            continue
+        if isinstance(a, bool) or isinstance(b, bool):
+            differ = bool(a) != bool(b)
+        else:
+            differ = abs(a - b) > 1e-9 * max(1, abs(a), abs(b))
+        if differ:
+            w = {k: (float(val) if isinstance(val, Fr) else val) for k, val in env.items() if not k.startswith('@')}
+            # materialise arrays over their declared shapes
+            for name, (shape, sort) in case.tensors.items():
+                dims = []
+                for sdim in shape:
+                    dims.append(sdim if isinstance(sdim, int) else int(evalc.evaluate(sdim, env)))
+                def build(prefix, k, name=name):
+                    if k == len(dims):
+                        return float(env['@' + name](*prefix)) if ('@' + name) in env else 0.0
+                    return [build(prefix + [i], k + 1) for i in range(dims[k])]
+                w[name] = build([], 0)
+                w[name + '.shape'] = dims
+            w['code_value'] = float(a) if not isinstance(a, bool) else a
+            w['spec_value'] = float(b) if not isinstance(b, bool) else b
+            w.update(getattr(case, 'witness_extra', {}) or {})
+            return w
+    return None
+
+
 def _from_repo_or_contract(p):
+    """An exception counts as behaviour of the code under verification only if it is raised by a
+    `raise` statement of the repository (or deliberately by the torch contract shim, as real torch
+    would).  Anything else - a TypeError from calling a shim primitive with an unsupported
+    signature, an AttributeError for a missing shim method ... - is an engine limitation."""
     f = p.exc_file or ''
-    if '/pfv/' in f:
+    if '/pfv/' in f or '/contracts/' in f:
         return bool(getattr(p.exception, '_pfv_deliberate', False))
-    return True
+    src = (getattr(p, 'exc_src', '') or '').strip()
+    if src.startswith('raise ') or src.startswith('assert '):
+        return True
+    return False
 
 
 def _witness(case, r):
     if r.status != 'sat' or not r.model:
         return {}
     try:
-        return concretise(r.model, case.scalars, case.tensors)
+        w = concretise(r.model, case.scalars, case.tensors)
+        w.update(getattr(case, 'witness_extra', {}) or {})
+        return w
     except Exception as e:
         return {'error': 'could not concretise model: %s' % e}
 
